@@ -247,7 +247,12 @@ def run_histories(c, rnd, n_steps, pna_tag="c10"):
                                                                       r["err"].decode("utf-8", "replace")[-300:])
                 if r["rc"] == 0:
                     res = out or inplace
-                    if not os.path.exists(res):
+                    no_patterns = cmd["name"] in ("chmod", "chown", "xattr", "acl") and not cmd["patterns"]
+                    if no_patterns and not os.path.exists(res):
+                        # without file arguments these commands select nothing and write nothing: on a multipart
+                        # input there is then no unsplit result file, the archive is still the part set
+                        after, end = cli.dump(inputs, X.PW)
+                    elif not os.path.exists(res):
                         after, end = [], "ERR missing"
                     else:
                         after, end = cli.dump([res], X.PW)
@@ -277,7 +282,9 @@ def run_histories(c, rnd, n_steps, pna_tag="c10"):
                                 again, end2 = cli.dump([iout or idem], X.PW)
                                 if end2 != "OK" or X.render(again) != X.render(after):
                                     msgs.append("repeating `%s` changes the archive again" % cmd["name"])
-                        before, inputs = after, [res]
+                        before = after
+                        if os.path.exists(res):
+                            inputs = [res]
                 else:
                     outcomes.append(X.err_kind(r))
                     if r["timeout"] or r["rc"] == 101 or r["rc"] < 0:
